@@ -84,6 +84,7 @@ type Options struct {
 	CutSteps       int    // stop the scenario once this many simulator steps were taken (0 = never) - C15's GST
 	Families       string // restrict to families, e.g. "F3" (sensitivity experiments); "" = all
 	NoFinish       bool   // do not append the closing clean rounds
+	Scatter        bool   // end the script by letting the correct replicas time out alone for pairwise different numbers of rounds (gaps of several rounds)
 	family         string // drawn by Run before the committee
 	ExtraPartition bool   // with probability 1/2 end the script with a partition segment (C15: replicas spread over rounds at GST)
 }
@@ -482,7 +483,9 @@ func RunOn(t *rapid.T, opt Options, cfg bs.Config, mode string, g1, g2 []int) *R
 	case "F7":
 		g.famConflictingLocks()
 	}
-	if opt.ExtraPartition && !g.done() {
+	if opt.Scatter && !g.cut() && len(g.activeHonest()) > 0 {
+		g.scatter()
+	} else if opt.ExtraPartition && !g.done() {
 		switch rapid.IntRange(0, 3).Draw(t, "extra") {
 		case 0, 1:
 			g.partition()
@@ -1141,6 +1144,28 @@ func (g *gen) secondLock() bool {
 	return true
 }
 
+// scatter: every correct replica times out alone (nothing is delivered) for its own number of rounds - pairwise different,
+// one stays where it is, the others are several rounds ahead of it and one round apart from each other.
+func (g *gen) scatter() {
+	act := g.activeHonest()
+	order := perm(g.t, len(act), "scatterOrder")
+	gap := rapid.IntRange(4, 7).Draw(g.t, "scatterGap")
+	var desc []string
+	for k, idx := range order {
+		i := act[idx]
+		rounds := 0
+		if k > 0 {
+			rounds = gap + k - 1
+		}
+		desc = append(desc, fmt.Sprintf("%d:+%d", i, rounds))
+		for ; rounds > 0; rounds-- {
+			g.s.RunRound(&bs.RoundPolicy{Fire: func(step, j int) bool { return j == i }, Route: func(*bs.Env, int) bool { return false }})
+		}
+	}
+	g.script("scatter(%s)", strings.Join(desc, ","))
+	g.class("seg:scatter-rounds")
+}
+
 // catchUp lets the correct replicas that are behind the front round (they were cut off) time out alone until they
 // are in the front round again.
 func (g *gen) catchUp() {
@@ -1378,6 +1403,63 @@ func (g *gen) byzRound(d int, variant string) *bs.ByzLeader {
 		bl.CommitTo = [][]int{committers}
 		desc += fmt.Sprintf("(block=%s results=%s precommit->%v commit->%v)", bs.Short(p1.BlockHash), bs.Short(p1.ResultsHash), lockers, committers)
 		g.class("byz:same-block-other-results-locked")
+	case "reused-sig-hqc":
+		// first the leader re-proposes what the replicas are locked on with the genuine lock certificate (they validate it),
+		// then - same round, the later PROPOSE replaces the stored one - a conflicting block whose "HighQc" has a later view and
+		// the block's hashes but the aggregate signature and bitmap of that genuine certificate
+		h := g.someLock()
+		var pa *bs.Proposal
+		if h != nil {
+			pa = s.FindProposal(h.BlockHash, h.ResultsHash)
+		}
+		pb := s.NewProposal(d, fmt.Sprintf("F/%d/%d", root, round), root)
+		if pa == nil {
+			bl.Props, bl.HighQcs, bl.Targets = []*bs.Proposal{pb}, []*lib.QuorumCertificate{nil}, [][]int{at}
+			desc += "(no-lock)"
+			break
+		}
+		genuine := bs.CloneQC(h)
+		genuine.Block, genuine.Results = nil, nil
+		fake := &lib.QuorumCertificate{Header: s.HeaderView(root, round, bs.ProposeVote), BlockHash: pb.BlockHash, ResultsHash: pb.ResultsHash,
+			ProposerKey: s.R[d].Pub, Signature: genuine.Signature}
+		if rapid.Bool().Draw(g.t, "fakeKeepsProposer") {
+			fake.ProposerKey = genuine.ProposerKey
+		}
+		bl.Props = []*bs.Proposal{pa, pb}
+		bl.HighQcs = []*lib.QuorumCertificate{genuine, fake}
+		bl.Targets = [][]int{at, at}
+		desc += fmt.Sprintf("(genuine=%d.%d:%s then fabricated@%d.%d:%s)", h.Header.RootHeight, h.Header.Round, bs.Short(h.BlockHash), root, round, bs.Short(pb.BlockHash))
+		g.class("byz:highqc-with-reused-signature")
+	case "election-cert-hqc":
+		// a conflicting block justified by the leader's own election certificate of this round used as HighQc
+		bl.Props = []*bs.Proposal{s.NewProposal(d, fmt.Sprintf("E/%d/%d", root, round), root)}
+		bl.Targets = [][]int{at}
+		bl.ElectionCertAsHighQc = true
+		g.class("byz:other-phase-cert-as-highqc")
+	case "other-phase-hqc":
+		// a conflicting block justified by a genuine +2/3 certificate of ANOTHER phase (election vote of an earlier round,
+		// precommit vote) whose header is kept and whose hashes are those of the proposal where the phase leaves them unsigned
+		prop := s.NewProposal(d, fmt.Sprintf("O/%d/%d", root, round), root)
+		var cands []*lib.QuorumCertificate
+		for _, c := range s.Certs() {
+			if c.Header.Phase != bs.ProposeVote && s.CertPower(c) >= s.VS.MinimumMaj23 {
+				cands = append(cands, c)
+			}
+		}
+		var hq *lib.QuorumCertificate
+		if len(cands) > 0 {
+			c := cands[rapid.IntRange(0, len(cands)-1).Draw(g.t, "otherPhaseCert")]
+			hq = bs.CloneQC(c)
+			hq.Block, hq.Results = nil, nil
+			if c.Header.Phase == bs.ElectionVote {
+				hq.BlockHash, hq.ResultsHash = prop.BlockHash, prop.ResultsHash
+			} else if p := s.FindProposal(c.BlockHash, c.ResultsHash); p != nil {
+				prop = p
+			}
+			desc += fmt.Sprintf("(hqc=%s@%d.%d)", bs.PhaseName(c.Header.Phase), c.Header.RootHeight, c.Header.Round)
+		}
+		bl.Props, bl.HighQcs, bl.Targets = []*bs.Proposal{prop}, []*lib.QuorumCertificate{hq}, [][]int{at}
+		g.class("byz:other-phase-cert-as-highqc")
 	case "stale", "fresh", "partialhqc", "wrongphase":
 		prop := s.NewProposal(d, fmt.Sprintf("Z/%d/%d", root, round), root)
 		var hq *lib.QuorumCertificate
@@ -1565,7 +1647,7 @@ func (g *gen) famWithheld() {
 		g.byzRound(d, "stale")
 		return
 	}
-	g.byzRound(d, rapid.SampledFrom([]string{"stale", "stale", "stale", "stale", "fresh", "partialhqc"}).Draw(g.t, "unlockWith"))
+	g.byzRound(d, rapid.SampledFrom([]string{"stale", "stale", "stale", "stale", "fresh", "partialhqc", "election-cert-hqc", "election-cert-hqc", "other-phase-hqc", "reused-sig-hqc", "reused-sig-hqc"}).Draw(g.t, "unlockWith"))
 }
 
 // F4: partial commit delivery, the rest must re-commit the same block in later rounds under leader changes.
@@ -1600,7 +1682,7 @@ func (g *gen) famPartialCommit() {
 			g.lossy()
 		case 1:
 			if d, ok := g.leadable(); ok && len(g.byz) > 0 {
-				g.byzRound(d, rapid.SampledFrom([]string{"fresh", "stale", "partialhqc", "wrongphase", "equivocate"}).Draw(g.t, "byzKind"))
+				g.byzRound(d, rapid.SampledFrom([]string{"fresh", "stale", "partialhqc", "wrongphase", "equivocate", "election-cert-hqc", "other-phase-hqc", "reused-sig-hqc"}).Draw(g.t, "byzKind"))
 			} else {
 				g.clean(false)
 			}
@@ -1645,7 +1727,7 @@ func (g *gen) famReplay() {
 			g.lockRound(rapid.Bool().Draw(g.t, "allLock"))
 		case 1:
 			if d, ok := g.leadable(); ok {
-				g.byzRound(d, rapid.SampledFrom([]string{"withhold", "stale", "fresh", "equivocate", "wrongphase", "partialhqc"}).Draw(g.t, "byzKind"))
+				g.byzRound(d, rapid.SampledFrom([]string{"withhold", "stale", "fresh", "equivocate", "wrongphase", "partialhqc", "election-cert-hqc", "other-phase-hqc", "reused-sig-hqc"}).Draw(g.t, "byzKind"))
 			} else {
 				g.lossy()
 			}
